@@ -2,7 +2,7 @@
 (* Stand-alone exploration of H_Key: any interleaving of set/get calls by two
    actors on two units, releases and destructor calls. *)
 EXTENDS H_Key
-Vals == {0, 1, 2}
+Vals == {0, 1}
 HNext == \/ \E a \in Actors, u \in Units, k \in Keys : (\E v \in Vals : Call(a, "set", u, k, v)) \/ Call(a, "get", u, k, 0)
          \/ \E a \in Actors : Lin(a) \/ (pend[a].op # "none" /\ pend[a].done /\ Ret(a, pend[a].op, pend[a].res, 0))
          \/ \E u \in Units : Release(u)
